@@ -13,9 +13,9 @@ import z3
 from . import sv
 from . import symex
 
-RLIMIT = int(os.environ.get('VERIF_RLIMIT', '40000000'))
+RLIMIT = int(os.environ.get('VERIF_RLIMIT', '200000000'))
 CVC5 = '/usr/bin/cvc5'
-TIMEOUT_MS = int(os.environ.get('VERIF_TIMEOUT_MS', '30000'))
+TIMEOUT_MS = int(os.environ.get('VERIF_TIMEOUT_MS', '120000'))
 
 
 def order_axioms(sort_name):
@@ -73,7 +73,7 @@ def check(ob, extra_axioms=(), want_model=True, rlimit=None):
   s.add(z3.Not(ob.goal))
   # stage 1: z3 with a small deterministic budget; stage 2: cvc5 (far more stable on string
   # goals); stage 3: z3 with the full budget.  sat/unsat from any stage is final.
-  s.set('rlimit', min(rlimit or RLIMIT, RLIMIT // 10))
+  s.set('rlimit', min(rlimit or RLIMIT, RLIMIT // 20))
   r = s.check()
   ob.backend = 'z3'
   if r == z3.unknown:
@@ -105,8 +105,10 @@ def check(ob, extra_axioms=(), want_model=True, rlimit=None):
     for seed_ in (0, 7, 23, 101):
       s3 = z3.Solver()
       s3.set('random_seed', seed_)
-      s3.set('rlimit', (rlimit or RLIMIT) // 2)
-      s3.set('timeout', max(4000, TIMEOUT_MS // 3))
+      # budgets are resource counts (deterministic); the wall-clock caps are only guards and are wide enough for
+      # a machine whose 16 cores are all busy (an obligation needing 2 s alone needs ~12 s then)
+      s3.set('rlimit', (rlimit or RLIMIT) // 3)
+      s3.set('timeout', TIMEOUT_MS // 2)
       for a in s.assertions():
         s3.add(a)
       r = s3.check()
@@ -128,7 +130,7 @@ def check(ob, extra_axioms=(), want_model=True, rlimit=None):
   return ob.result
 
 
-def run_cvc5(smt2, timeout=8):
+def run_cvc5(smt2, timeout=40):
   if not os.path.exists(CVC5):
     return 'unknown'
   txt = '(set-logic ALL)\n' + smt2
